@@ -20,6 +20,7 @@ LEVEL_TEXT = (
 TRUSTED = ["CPython ast", "pmcsa/paths.py", "chunk-liveness transfer functions in pmcsa/rules_C03.py"]
 
 Chunk = namedtuple("Chunk", "status")  # fresh / saved / empty / split
+Part = namedtuple("Part", "owner part")  # a piece of the chunk held by variable `owner`, cut off by partition(): 'prefix' / 'suffix'
 FRESH, SAVED, EMPTY, SPLIT = Chunk("fresh"), Chunk("saved"), Chunk("empty"), Chunk("split")
 CHUNKS = Opaque("chunk-generator")
 CONTENT_OPS = ("strip", "rstrip", "lstrip", "replace", "split", "rsplit", "splitlines", "translate", "decode", "partition", "rpartition", "removesuffix", "removeprefix", "expandtabs", "lower", "upper")
@@ -74,6 +75,12 @@ class ByteDomain(exchange.ExchangeDomain):
             aug = isinstance(node, ast.AugAssign)
             if not aug:
                 self.kills.append((name, node, state, self.fn))
+        moved = state.get("#moved", None)
+        if moved is not None and moved != name:
+            # `name = moved`: the bytes are held by `name` from here on
+            state = state.drop("#moved")
+            if isinstance(state.get(moved, None), Chunk) and state.get(moved).status == "fresh" and value == FRESH:
+                state = state.set(moved, SAVED)
         return state.set(name, value)
 
     def _save(self, state, expr):
@@ -82,6 +89,15 @@ class ByteDomain(exchange.ExchangeDomain):
             cur = state.get(expr.id)
             if cur.status == "fresh":
                 return state.set(expr.id, SAVED)
+        if isinstance(expr, ast.Name) and isinstance(state.get(expr.id, None), Part):
+            # what partition() cut off the chunk in `owner` flows on: as for the slices below
+            pv = state.get(expr.id)
+            if isinstance(state.get(pv.owner, None), Chunk):
+                parts = tuple(sorted(set(state.get(("parts", pv.owner), ())) | {pv.part}))
+                st = state.set(("parts", pv.owner), parts)
+                if "suffix" in parts and state.get(pv.owner).status == "fresh":
+                    st = st.set(pv.owner, SPLIT)
+                return st
         if isinstance(expr, ast.Subscript) and isinstance(expr.value, ast.Name) and isinstance(state.get(expr.value.id, None), Chunk) and isinstance(expr.slice, ast.Slice):
             nm = expr.value.id
             part = "prefix" if expr.slice.lower is None or _is_zero(expr.slice.lower) else ("suffix" if expr.slice.upper is None else "middle")
@@ -137,6 +153,10 @@ class ByteDomain(exchange.ExchangeDomain):
             return [("ok", NONE, self._save(state, node.args[0]))]
         if isinstance(node.func, ast.Attribute) and node.func.attr == "join":
             return [("ok", TOP, state)]
+        if isinstance(node.func, ast.Attribute) and node.func.attr in ("partition", "rpartition") and isinstance(node.func.value, ast.Name) and isinstance(state.get(node.func.value.id, None), Chunk):
+            # (before, separator, after): views of the chunk, which stays where it is
+            own = node.func.value.id
+            return [("ok", TupleV((Part(own, "prefix"), TOP, Part(own, "suffix"))), state)]
         name = call_name(node)
         if name.startswith("self.") and name.count(".") == 1:
             m = self.prog.cls("Client").methods.get(name[5:])
@@ -153,6 +173,10 @@ class ByteDomain(exchange.ExchangeDomain):
         return [("ok", TOP, state)]
 
     def on_stmt(self, node, state):
+        if state.has("#moved"):
+            state = state.drop("#moved")
+        if isinstance(node, ast.Assign) and isinstance(node.value, ast.Name) and len(node.targets) == 1 and isinstance(node.targets[0], ast.Name) and node.targets[0].id != node.value.id and isinstance(state.get(node.value.id, None), Chunk):
+            return state.set("#moved", node.value.id)  # X = chunk : see name_store
         # X += chunk / X = X + chunk : the right operand flows into X
         if isinstance(node, ast.AugAssign) and isinstance(node.op, ast.Add):
             return self._save(state, node.value)
@@ -321,6 +345,15 @@ def run(chk):
     # the straddle idiom of the fixed two-byte terminator
     rl = [f for f in reader_fns if f.name == "_readline"]
     for f in rl:
+        # either the reader accumulates and searches the whole buffer (as the segment reader does) ...
+        adom = AccDomain(prog, f, byte_sources, tokens=(Const(b"\r\n"),))
+        ainit = {p.name: (ACC if p.name == "buf" else TOP) for p in f.params}
+        ainit["#pending"] = 0
+        Interp(adom, f.node, prog).run(Env(ainit))
+        if adom.n_search and not adom.problems and not any(isinstance(c, ast.Call) and isinstance(c.func, ast.Attribute) and c.func.attr in ("find", "index") and len(c.args) > 1 for c in walk_no_nested(f.node)):
+            r4.ok("_readline: every search for CR LF runs on a buffer into which all bytes received so far have flowed (%d searches)" % adom.n_search)
+            continue
+        # ... or it searches piece by piece and carries the last character over
         has_last = any(isinstance(n, ast.Compare) and any(isinstance(c, ast.Constant) and c.value == b"\r" for c in ast.walk(n)) for n in walk_no_nested(f.node))
         has_find = any(isinstance(n, ast.Call) and isinstance(n.func, ast.Attribute) and n.func.attr == "find" and n.args and isinstance(n.args[0], ast.Constant) and n.args[0].value == b"\r\n" for n in walk_no_nested(f.node))
         r4.expect(has_last and has_find, "_readline: piece-wise search for CR LF plus the carried last character (recognised straddle idiom)", "_readline:straddle-idiom", "_readline no longer combines the per-piece search for b'\\r\\n' with a carried last character: a CR LF cut between two pieces is missed", fn=f, node=f.node)
@@ -350,9 +383,10 @@ class AccDomain(Domain):
     subscript_may_raise = False
     unpack_may_raise = False
 
-    def __init__(self, prog, fn, byte_sources):
+    def __init__(self, prog, fn, byte_sources, tokens=()):
         super().__init__(prog, fn)
         self.byte_sources = set(byte_sources)
+        self.tokens = (TOKEN,) + tuple(tokens)
         mod = fn.module
         self.generators = {n for n in self.byte_sources if any(isinstance(x, (ast.Yield, ast.YieldFrom)) for x in walk_no_nested(mod.functions[n].node))}
         self.problems = []
@@ -411,7 +445,7 @@ class AccDomain(Domain):
         if name == "next" and args and args[0] == CHUNKS:
             v, st = self._new(state)
             return [("ok", v, st)]
-        if isinstance(fval, tuple) and fval and fval[0] == "meth" and fval[2] in ("find", "index", "rfind", "partition", "split", "endswith", "count") and args and args[0] == TOKEN:
+        if isinstance(fval, tuple) and fval and fval[0] == "meth" and fval[2] in ("find", "index", "rfind", "partition", "split", "endswith", "count") and args and args[0] in self.tokens:
             self.n_search += 1
             recv, pend = fval[1], state.get("#pending", 0)
             if recv != ACC:
